@@ -22,10 +22,12 @@ import (
 	"math"
 	"net"
 	"net/http"
+	"net/http/httptest"
 	neturl "net/url"
 	"os"
 	"strconv"
 	"strings"
+	"sync"
 	"syscall"
 	"testing"
 	"testing/synctest"
@@ -1389,6 +1391,127 @@ func enumUploads(t *testing.T, maxLen int) {
 	rec(nil)
 }
 
+// ---------------------------------------------------------------- real net/http transport (oracle only)
+
+// realTransportScenario: the same stack over net/http's own Transport and an httptest server
+// (HTTP/1.1, real sockets, asynchronous body writer): large bodies, answers sent before the
+// body was read (503 / 401 challenge), then a handler that reads to EOF.  Judged: whenever the
+// registry read a request to the end it got the whole original body and the announced
+// Content-Length; nothing about timing or the final status (an early answer may legitimately
+// surface as a connection error).
+type realCase struct {
+	Op      string `json:"op"` // R
+	Size    int    `json:"size"`
+	OneShot bool   `json:"one_shot"`
+	Plan    []int  `json:"plan"` // per request: status; negative = answer -status without reading the body
+	Auth    bool   `json:"auth"`
+}
+
+func realTransportScenario(c *realCase) {
+	id := run.NewID()
+	data := make([]byte, c.Size)
+	for i := range data {
+		data[i] = byte((i*31 + i/255) % 251)
+	}
+	want := sha256.Sum256(data)
+	type seen struct {
+		complete bool
+		n        int64
+		sum      [32]byte
+		clen     int64
+		readErr  error
+	}
+	var mu sync.Mutex
+	var log []seen
+	pos := 0
+	srv := httptest.NewServer(http.HandlerFunc(func(w http.ResponseWriter, r *http.Request) {
+		mu.Lock()
+		st := 201
+		if pos < len(c.Plan) {
+			st = c.Plan[pos]
+		}
+		pos++
+		mu.Unlock()
+		if st < 0 {
+			st = -st
+		} else {
+			h := sha256.New()
+			n, err := io.Copy(h, r.Body)
+			var s seen
+			s.complete, s.n, s.clen, s.readErr = err == nil, n, r.ContentLength, err
+			copy(s.sum[:], h.Sum(nil))
+			mu.Lock()
+			log = append(log, s)
+			mu.Unlock()
+		}
+		if st == 401 {
+			w.Header().Set("Www-Authenticate", `Basic realm="real"`)
+		}
+		w.WriteHeader(st)
+	}))
+	defer srv.Close()
+	tr := http.DefaultTransport.(*http.Transport).Clone()
+	defer tr.CloseIdleConnections()
+	pol := &retry.GenericPolicy{Retryable: retry.DefaultPredicate, Backoff: func(int, *http.Response) time.Duration { return time.Millisecond },
+		MinWait: time.Millisecond, MaxWait: 5 * time.Millisecond, MaxRetry: 4}
+	hc := &http.Client{Transport: &retry.Transport{Base: tr, Policy: func() retry.Policy { return pol }}}
+	var client remote.Client = hc
+	if c.Auth {
+		host := strings.TrimPrefix(srv.URL, "http://")
+		client = &auth.Client{Client: hc, Cache: auth.NewCache(), Credential: auth.StaticCredential(host, auth.Credential{Username: "u", Password: "p"})}
+	}
+	var body io.Reader = bytes.NewReader(data)
+	if c.OneShot {
+		body = &oneShot{bytes.NewReader(data)}
+	}
+	req, err := http.NewRequest(http.MethodPut, srv.URL+"/v2/r/blobs/uploads/1", body)
+	if err != nil {
+		panic(err)
+	}
+	req.ContentLength = int64(len(data))
+	resp, err := client.Do(req)
+	res := "ERR"
+	if err == nil {
+		res = fmt.Sprintf("RESP%d", resp.StatusCode)
+		io.Copy(io.Discard, resp.Body)
+		resp.Body.Close()
+	}
+	run.Evaluations++
+	run.Count("real_transport")
+	run.Count("real_transport_" + res)
+	mu.Lock()
+	defer mu.Unlock()
+	for i, s := range log {
+		switch {
+		case s.complete && (s.n != int64(len(data)) || s.sum != want):
+			run.OracleFail(id, "real-body-truncated", fmt.Sprintf("real transport: request %d read to EOF delivered %d bytes (want %d, digest ok=%v); result %s", i, s.n, len(data), s.sum == want, res), c)
+		case s.clen != int64(len(data)):
+			run.OracleFail(id, "request-changed", fmt.Sprintf("real transport: request %d announced Content-Length %d, want %d", i, s.clen, len(data)), c)
+		}
+		if s.complete {
+			run.Count("real_transport_complete_bodies")
+		}
+	}
+	if len(log) > 1 {
+		run.Nontrivial(fmt.Sprintf("real %+v", *c))
+	}
+}
+
+func genReal(r *common.Rand) *realCase {
+	c := &realCase{Op: "R", Size: (1 + r.Intn(8)) << 20, OneShot: r.Chance(1, 4), Auth: r.Chance(1, 2)}
+	for i := r.Intn(4); i > 0; i-- {
+		c.Plan = append(c.Plan, common.Pick(r, []int{503, -503, 429, -429, 500}))
+	}
+	if c.Auth && r.Chance(2, 3) {
+		c.Plan = append(c.Plan, common.Pick(r, []int{401, -401}))
+		if r.Chance(1, 2) {
+			c.Plan = append(c.Plan, common.Pick(r, []int{503, -503}))
+		}
+	}
+	c.Plan = append(c.Plan, 201)
+	return c
+}
+
 // ---------------------------------------------------------------- entry point
 
 // replayCases re-runs the "cases" array of a replay/corpus file.  (Not via
@@ -1418,6 +1541,12 @@ func replayCases(t *testing.T) {
 				panic(err)
 			}
 			scriptCaseRun(t, &c)
+		case "R":
+			var c realCase
+			if err := json.Unmarshal(js, &c); err != nil {
+				panic(err)
+			}
+			realTransportScenario(&c)
 		case "B", "D":
 			var c pointCase
 			if err := json.Unmarshal(js, &c); err != nil {
@@ -1486,6 +1615,9 @@ func TestVerif(t *testing.T) {
 			}
 			scriptCaseRun(t, c)
 		}
+	}
+	for i := 0; i < run.Scale(6, 120); i++ {
+		realTransportScenario(genReal(r))
 	}
 	enumUploads(t, run.Scale(4, 6))
 	nScripts := run.Scale(2500, 500000)
